@@ -63,6 +63,8 @@ pub struct LocalCfg {
     pub video: Vec<VideoCapability>,
     pub caps_set: bool,
     pub trxs: Vec<(MediaKind, TransceiverDirection)>,
+    /// kinds for which a track is added with `add_track` (a transceiver WITH a sender)
+    pub tracks: Vec<MediaKind>,
 }
 
 fn acap(pt: u8, name: &str, clock: u32, ch: u8, fmtp: Option<&str>) -> AudioCapability {
@@ -92,7 +94,8 @@ fn gen_cfg(rng: &mut Rng) -> LocalCfg {
     let dirs = [TransceiverDirection::SendRecv, TransceiverDirection::SendRecv, TransceiverDirection::SendOnly, TransceiverDirection::RecvOnly, TransceiverDirection::Inactive];
     let n = match rng.below(10) { 0..=3 => 0, 4..=6 => 1, 7..=8 => 2, _ => 4 };
     let trxs = (0..n).map(|_| (*rng.pick(&kinds), *rng.pick(&dirs))).collect();
-    LocalCfg { mode, legacy: rng.chance(1, 6), mux_require: !rng.chance(1, 6), audio, video, caps_set, trxs }
+    let tracks = match rng.below(8) { 0 => vec![MediaKind::Audio], 1 => vec![MediaKind::Video], 2 => vec![MediaKind::Audio, MediaKind::Video], _ => vec![] };
+    LocalCfg { mode, legacy: rng.chance(1, 6), mux_require: !rng.chance(1, 6), audio, video, caps_set, trxs, tracks }
 }
 
 fn rtc_config(c: &LocalCfg) -> RtcConfiguration {
@@ -125,7 +128,7 @@ fn cfg_s(c: &LocalCfg) -> String {
 fn gen_offer(rng: &mut Rng) -> DescSpec {
     let nsec = match rng.below(10) { 0..=2 => 1, 3..=5 => 2, 6..=7 => 3, 8 => 4, _ => rng.range(5, 6) } as usize;
     let scheme = rng.below(6); // 0,1 numeric; 2 named; 3 absent; 4 mixed; 5 numeric with offset
-    let setup = *rng.pick(&["actpass", "actpass", "actpass", "active", "passive"]);
+    let setup: Option<&'static str> = *rng.pick(&[Some("actpass"), Some("actpass"), Some("actpass"), Some("active"), Some("passive"), Some("holdconn"), None]);
     let mut secs = vec![];
     let mut have_app = false;
     for i in 0..nsec {
@@ -140,7 +143,7 @@ fn gen_offer(rng: &mut Rng) -> DescSpec {
             _ => Some((i + 3).to_string()),
         };
         let mut s = SecSpec::new(kind, mid.as_deref());
-        s.setup = Some(setup);
+        s.setup = setup;
         s.dir = *rng.pick(&["sendrecv", "sendrecv", "sendrecv", "sendonly", "recvonly", "inactive", ""]);
         s.rtcp_mux = !rng.chance(1, 5);
         match kind {
@@ -185,6 +188,11 @@ fn gen_offer(rng: &mut Rng) -> DescSpec {
 fn mutate_offer(rng: &mut Rng, d: &DescSpec) -> DescSpec {
     let mut n = d.clone();
     n.session_version += 1;
+    if rng.chance(1, 5) {
+        // the offerer proposes another DTLS role on the re-offer
+        let su: Option<&'static str> = *rng.pick(&[Some("actpass"), Some("active"), Some("passive")]);
+        for s in &mut n.sections { s.setup = su; }
+    }
     for s in &mut n.sections {
         if rng.chance(1, 2) { s.dir = *rng.pick(&["sendrecv", "sendonly", "recvonly", "inactive"]); }
         if s.kind == MediaKind::Audio && rng.chance(1, 2) {
@@ -404,6 +412,16 @@ pub async fn exec_case(run: &mut Run, case: &str, ac: &AnsCase) {
     let c = &ac.cfg;
     let pc = PeerConnection::new(rtc_config(c));
     for (k, d) in &c.trxs { pc.add_transceiver(*k, *d); }
+    let mut keep = vec![];
+    for k in &c.tracks {
+        let (src, track, fb) = rustrtc::media::track::sample_track(
+            if *k == MediaKind::Audio { rustrtc::media::frame::MediaKind::Audio } else { rustrtc::media::frame::MediaKind::Video }, 16);
+        let params = if *k == MediaKind::Audio { rustrtc::RtpCodecParameters { payload_type: 111, name: "opus".into(), clock_rate: 48000, channels: 2 } }
+                     else { rustrtc::RtpCodecParameters { payload_type: 96, name: "VP8".into(), clock_rate: 90000, channels: 0 } };
+        let _ = pc.add_track(track, params);
+        keep.push((src, fb));
+        run.count("local_tracks");
+    }
     run.count(&format!("mode_{}", match c.mode { TransportMode::WebRtc => "webrtc", TransportMode::Srtp => "srtp", TransportMode::Rtp => "rtp" }));
     if c.legacy { run.count("cfg_legacy_sip"); }
     let mut reneg = false;
@@ -418,6 +436,18 @@ pub async fn exec_case(run: &mut Run, case: &str, ac: &AnsCase) {
         reneg = true;
     }
     pc.close();
+    drop(keep);
+    // a description the stack PRODUCES as an offerer, same configuration: text round trip
+    if !c.trxs.is_empty() {
+        let pc2 = PeerConnection::new(rtc_config(c));
+        for (k, d) in &c.trxs { pc2.add_transceiver(*k, *d); }
+        if let Ok(offer) = pc2.create_offer().await {
+            round_trip_desc(run, case, "produced-offer", &offer);
+            round_trip_text(run, case, "produced-offer-text", &offer.to_sdp_string());
+            run.count("produced_offers");
+        }
+        pc2.close();
+    }
 }
 
 // ------------------------------------------------------------------------------------------------
